@@ -21,4 +21,5 @@ func init() {
 	register("C15", "exploration", C15)
 	register("C14", "fault_enumeration", C14)
 	register("C18", "exploration", C18)
+	register("C06", "exploration", C06)
 }
